@@ -61,6 +61,10 @@ inductive Kind
   | frombuf (src : ObjId) (released : Bool)
   /-- `CDataOwningGC_Type` with `void *` type: `structobj = obj`, `c_data = addr`. -/
   | handle (obj : ObjId) (addr : Nat)
+  /-- an activation of a destructor / free function (`gcp_finalize` in progress): the C frame holds
+  references to the destructor, to the original cdata passed as argument and, when the call comes
+  from `ffi.release()` / `__exit__` / `tp_finalize`, the caller holds the wrapper.  `ret` empties it. -/
+  | frame (pins : List ObjId)
   deriving DecidableEq
 
 structure Obj where
@@ -74,7 +78,8 @@ structure Obj where
   hadDtor : Bool
   /-- ghost: created by an allocator (`allocate_with_allocator`) -/
   isAlloc : Bool
-  /-- ghost: `ffi.release()` / `__exit__` has been applied -/
+  /-- ghost: `cdatagcp_finalize` has been applied to the live object (`ffi.release()`, `__exit__`,
+  or `tp_finalize` run by the cycle collector) -/
   released : Bool
   /-- ghost: `ffi.gc(x, None)` removed a destructor that was still in its slot -/
   noned : Bool
@@ -87,14 +92,16 @@ def mkObj (k : Kind) (ext : Nat) (hadDtor isAlloc : Bool := false) : Obj :=
 structure State where
   objs : ObjId → Option Obj
   next : Nat
+  /-- the destructor calls in progress, innermost first (identities of `frame` objects) -/
+  frames : List ObjId
 
-def init : State := { objs := fun _ => none, next := 0 }
+def init : State := { objs := fun _ => none, next := 0, frames := [] }
 
 def State.set (s : State) (i : ObjId) (o : Obj) : State :=
   { s with objs := fun j => if j = i then some o else s.objs j }
 
 def State.push (s : State) (o : Obj) : State :=
-  { objs := fun j => if j = s.next then some o else s.objs j, next := s.next + 1 }
+  { objs := fun j => if j = s.next then some o else s.objs j, next := s.next + 1, frames := s.frames }
 
 /-- The object with identity `i` if it exists and has not been deallocated. -/
 def State.live (s : State) (i : ObjId) : Option Obj :=
@@ -111,10 +118,12 @@ def edges (o : Obj) : List ObjId :=
   | .gcp d orig => d.toList ++ orig.toList
   | .frombuf src rel => if rel then [] else [src]
   | .handle obj _ => [obj]
+  | .frame pins => pins
 
 def isCData (o : Obj) : Bool :=
   match o.kind with
   | .py .. => false
+  | .frame .. => false
   | _ => true
 
 inductive Err
@@ -129,6 +138,8 @@ inductive Err
   | Reachable
   /-- `from_handle` on an address no live handle has (undefined behaviour / fatal error in C) -/
   | Garbage
+  /-- `ret` without a destructor call in progress -/
+  | NoFrame
   deriving DecidableEq, Repr
 
 inductive Op
@@ -150,6 +161,10 @@ inductive Op
   | fromBuffer (b : ObjId)
   | resize (b : ObjId)
   | collect (S : List ObjId)
+  /-- the collector runs `tp_finalize` of `x`, a member of the unreferenced set `S` -/
+  | finalize (x : ObjId) (S : List ObjId)
+  /-- the innermost destructor / free-function call returns -/
+  | ret
   deriving DecidableEq
 
 abbrev Out := Except Err (List Nat)
@@ -212,6 +227,7 @@ def release (s : State) (x : ObjId) : State × Out :=
   | some o =>
     match o.kind with
     | .py .. => (s, .error .TypeError)
+    | .frame .. => (s, .error .TypeError)
     | .owning false => (s, .ok [])
     | .owning true => (s, .error .ValueError)
     | .handle .. => (s, .error .ValueError)
@@ -227,6 +243,49 @@ def release (s : State) (x : ObjId) : State × Out :=
     | .frombuf src rel =>
       if rel then (s, .ok []) else
       (s.set x { o with kind := .frombuf src true, released := true }, .ok [])
+
+/-- What the activation started by finalising wrapper `w` holds on to: the destructor and its
+argument (nothing if the destructor slot is empty: no call). -/
+def callPins (s : State) (w : ObjId) : Option (List ObjId) :=
+  match s.objs w with
+  | some o =>
+    (match o.kind with
+     | .gcp (some d) orig => some (d :: orig.toList)
+     | _ => none)
+  | none => none
+
+/-- start one activation: a `frame` object holding `pins`, on top of the stack -/
+def State.pushFrame (s : State) (pins : List ObjId) : State :=
+  { (s.push (mkObj (.frame pins) 1)) with frames := s.next :: s.frames }
+
+def State.pushFrames (s : State) : List (List ObjId) → State
+  | [] => s
+  | pins :: rest => (s.pushFrame pins).pushFrames rest
+
+def isAlive (s : State) (x : ObjId) : Bool := (s.live x).isSome
+
+/-- `ffi.release(x)` / `with x:` including the destructor activation it starts: the wrapper is
+emptied and marked *first* (`cdatagcp_finalize` takes the fields out of the object), then the
+destructor is called; whatever happens until the matching `ret` happens inside that call. -/
+def opRelease (s : State) (x : ObjId) : State × Out :=
+  match (release s x).2 with
+  | .ok (w :: _) =>
+    (match callPins s w with
+     | some pins => ((release s x).1.pushFrame ((if w = x then [x] else [x, w]) ++ pins), (release s x).2)
+     | none => release s x)
+  | _ => release s x
+
+/-- `ret`: the innermost activation ends; its references are dropped -/
+def opRet (s : State) : State × Out :=
+  match s.frames with
+  | f :: rest =>
+    (match s.live f with
+     | some o =>
+       (match o.kind with
+        | .frame _ => ({ (s.set f { o with kind := .frame [], ext := 0 }) with frames := rest }, .ok [])
+        | _ => (s, .error .NoFrame))
+     | none => (s, .error .NoFrame))
+  | [] => (s, .error .NoFrame)
 
 def freeOk (s : State) : Option ObjId → Bool
   | none => true
@@ -354,8 +413,28 @@ def firedIn (s : State) (S : List ObjId) : List ObjId :=
     | some o => fires o
     | none => false
 
+/-- Deallocation of the set `S`; every member whose destructor slot is still full gets its
+destructor called (`cdatagcp_dealloc`): one activation each, holding what is left of its arguments. -/
 def opCollect (s : State) (S : List ObjId) : State × Out :=
-  if collectOk s S then (collectState s S, .ok (firedIn s S)) else (s, .error .Reachable)
+  if collectOk s S then
+    ((collectState s S).pushFrames ((firedIn s S).map fun w =>
+        ((callPins s w).getD []).filter (isAlive (collectState s S))), .ok (firedIn s S))
+  else (s, .error .Reachable)
+
+/-- `tp_finalize` of `x` run by the cycle collector on the unreferenced set `S` (before anything
+of `S` is deallocated): `cdatagcp_finalize`, as for `ffi.release()`. -/
+def opFinalize (s : State) (x : ObjId) (S : List ObjId) : State × Out :=
+  if collectOk s S && decide (x ∈ S) then
+    match s.live x with
+    | some o =>
+      (match o.kind with
+       | .gcp d orig =>
+         (match d with
+          | some dd => ((s.set x { finalizeGcp o with released := true }).pushFrame (x :: dd :: orig.toList), .ok [x])
+          | none => (s.set x { finalizeGcp o with released := true }, .ok []))
+       | _ => (s, .ok []))
+    | none => (s, .error .Dead)
+  else (s, .error .Reachable)
 
 def step (s : State) : Op → State × Out
   | .newPy tag => opNewPy s tag
@@ -365,8 +444,8 @@ def step (s : State) : Op → State × Out
   | .allocStruct free => opAllocStruct s free
   | .gc p d => opGc s p d
   | .gcNone g => opGcNone s g
-  | .release x => release s x
-  | .withExit x => release s x
+  | .release x => opRelease s x
+  | .withExit x => opRelease s x
   | .dropRef x => opDropRef s x
   | .store c x => opStore s c x
   | .clear c => opClear s c
@@ -376,6 +455,8 @@ def step (s : State) : Op → State × Out
   | .fromBuffer b => opFromBuffer s b
   | .resize b => opResize s b
   | .collect S => opCollect s S
+  | .finalize x S => opFinalize s x S
+  | .ret => opRet s
 
 def run (s : State) (ops : List Op) : State := ops.foldl (fun st op => (step st op).1) s
 
